@@ -60,6 +60,23 @@ std::vector<int64_t> ids_of(const std::vector<dj::crate>& v)
     return r;
 }
 
+// 2.x: a playlist row written through the public table API with is_persisted = false (a row the high-level API never writes, but reads):
+// whatever the crate queries make of it, they must all make the same of it
+void op_pl_add_raw(World& w, const Op& op)
+{
+    namespace v2 = djinterop::engine::v2;
+    v2::playlist_row row{v2::PLAYLIST_ROW_ID_NONE, op.s.at(0), op.i.at(0) < 0 ? v2::PARENT_LIST_ID_NONE : w.crates.at((size_t)op.i.at(0)).id(), false, v2::PLAYLIST_ROW_ID_NONE,
+                         std::chrono::system_clock::time_point{std::chrono::seconds{1700000000}}, false};
+    int64_t id = w.lib2->playlist().add(row);
+    auto c = w.db.crate_by_id(id);
+    if (!c) throw std::runtime_error("crate_by_id does not find the playlist row just added through the table API");
+    w.crates.push_back(*c);
+}
+struct RegisterRawOps
+{
+    RegisterRawOps() { World::register_op("pl_add_raw", op_pl_add_raw); }
+} register_raw_ops;
+
 struct Dom
 {
     using Model = Forest;
@@ -73,8 +90,12 @@ struct Dom
             if (!x.live) dead.push_back(x.id);
         return "|dead=" + ids_str(dead);
     }
-    static std::vector<std::string> seeds(eng::engine_schema)
+    static std::vector<std::string> seeds(eng::engine_schema sch)
     {
+        if (is_v2(sch))
+            return {"", "create_root(|a);remove_crate(0)", "@2:create_root(|a);create_sub(0|b);create_sub(1|a);create_sub(2|b)", "@1:create_root(|a);create_sub(0|a);create_sub(0|b)",
+                    // a non-persisted sub-crate and a non-persisted root next to ordinary ones
+                    "@1:create_root(|a);pl_add_raw(0|b);pl_add_raw(-1|b)"};
         // the empty library, and one in which a crate was created and removed again (so ids and rowids are offset)
         // and two forests that the depth bound alone does not reach in the quick tier: a chain of four and a root with two children
         return {"", "create_root(|a);remove_crate(0)", "@2:create_root(|a);create_sub(0|b);create_sub(1|a);create_sub(2|b)", "@1:create_root(|a);create_sub(0|a);create_sub(0|b)"};
@@ -136,9 +157,9 @@ struct Dom
         };
         auto valid_name = [](const std::string& n) { return !n.empty() && n.find(';') == std::string::npos; };
 
-        if (op.f == "create_root" || op.f == "create_sub")
+        if (op.f == "create_root" || op.f == "create_sub" || op.f == "pl_add_raw")
         {
-            int parent = op.f == "create_sub" ? (int)op.i[0] : -1;
+            int parent = op.f == "create_root" ? -1 : (int)op.i[0];
             const std::string& n = op.s[0];
             if (!valid_name(n)) must_reject("invalid_name", "")  /* the statement fixes no exception type; crate_invalid_name is what the library documents */;
             else if (m.sibling_name_taken(parent, n, -1)) either();
@@ -365,7 +386,7 @@ int run(const Options& o)
     c["rule"] =
         "Explicit-state BFS on the real library for each schema version. Alphabet in every state: create_root_crate(n), create_sub_crate(p,n) for every live p, set_name(c,n), "
         "set_parent(c,p) for every live p (including c itself and every descendant) and for none, remove_crate(c); names n in {a, b, '', 'x;y'}; at most 4 live / 5 created crates; "
-        "seeds: empty library, a library in which a crate was created and removed, a chain of four crates (entering two levels late) and a root with two children (one level late). After every transition the reference forest (id -> name, parent) is compared with crates(), "
+        "seeds: empty library, a library in which a crate was created and removed, a chain of four crates (entering two levels late), a root with two children (one level late) and, on 2.x, a forest with a sub-crate and a root whose rows were written through the table API with is_persisted = false. After every transition the reference forest (id -> name, parent) is compared with crates(), "
         "parent(), name(), children(), descendants(), root_crates(), crate_by_id, crates_by_name, root_crate_by_name, sub_crate_by_name, is_valid()/id() of live and removed handles. "
         "A state is the canonical dump of all tables; non-trivial = distinct states whose forest has depth >= 2. States that violate the property are reported and not expanded further.";
     c["exhaustive"] = exhaustive;
